@@ -35,6 +35,12 @@ pub fn dispatch(ctx: &Ctx, rep: &mut Report) -> bool {
         "C04" => bytecode::c04(ctx, rep),
         "C17" => bytecode::c17(ctx, rep),
         "selftest" => common::selftest(ctx, rep),
+        "stress-dump" => {
+            for (i, (name, src)) in common::stress_sources().into_iter().enumerate() {
+                let _ = std::fs::write(ctx.work.join(format!("stress-{:02}-{}.fml", i, name)), src);
+                rep.evaluations += 1;
+            }
+        }
         _ => return false,
     }
     true
